@@ -560,7 +560,7 @@ fn opt_bound() -> impl Strategy<Value = (Option<u64>, Option<u64>)> {
     ]
 }
 
-fn prim_strategy() -> impl Strategy<Value = Prim> {
+pub fn prim_strategy() -> impl Strategy<Value = Prim> {
     let fam = i64_family();
     let pick = move || prop_oneof![2 => proptest::sample::select(fam.clone()), 1 => any::<i64>(), 2 => -300..300i64];
     let lens = len_family();
@@ -626,6 +626,20 @@ pub fn run(ctx: Ctx) -> i32 {
     report.assumption("trusted base: vcore::refper (reference primitives written from X.691, unit-tested against hand-derived vectors)");
     report.assumption("write_normally_small_length(v) follows asn1rs's convention (caller passes count-1): bit-exactness asserted for v <= 63 only, round trip for all v");
     report.assumption("write_non_negative_binary_integer / 2s-complement helpers are exercised only through their callers (no documented contract of their own)");
+    // a raw libFuzzer input (timeout / out-of-memory artifacts have no decoded case)
+    if let Some(path) = &ctx.replay {
+        let j = read_replay(path);
+        if let Some(h) = j["case"]["fuzz_input"].as_str() {
+            report.eval(1);
+            match fuzz_one(&unhex(h)) {
+                None => println!("replay: case passes"),
+                Some((key, msg, case)) => {
+                    report.fail(&key, &msg, case);
+                }
+            }
+            return report.finish();
+        }
+    }
     if let Some(path) = &ctx.replay {
         let j = read_replay(path);
         let p = Prim::from_json(&j["case"]["prim"]);
@@ -659,4 +673,11 @@ pub fn run(ctx: Ctx) -> i32 {
     dead_workers_are_infra(&report, &bad);
     report.exhaustive("constrained whole numbers: lb in [-40,40] x (ub-lb) in [0,300] x v in [lb-2,ub+2]");
     report.finish()
+}
+
+
+/// fuzz entry (engine/fuzz perprims)
+pub fn fuzz_one(data: &[u8]) -> Option<(String, String, J)> {
+    let p = from_fuzz_bytes(&prim_strategy(), data)?;
+    check_prim(&p).err().map(|(k, m)| (k, m, json!({"prim": p.to_json()})))
 }
